@@ -1556,22 +1556,8 @@ func (c *Compiler) compositeLit(e *ast.CompositeLit, elided types.Type) {
 	if e.Type != nil {
 		if at, ok := e.Type.(*ast.ArrayType); ok {
 			if _, ok := at.Len.(*ast.Ellipsis); ok {
-				n := int64(0)
-				idx := int64(0)
-				for _, el := range e.Elts {
-					if kv, ok := el.(*ast.KeyValueExpr); ok {
-						if bl, ok := kv.Key.(*ast.BasicLit); ok {
-							idx, _ = strconv.ParseInt(bl.Value, 0, 64)
-						} else {
-							unsupported("[...]T literal with non-literal key")
-						}
-					}
-					idx++
-					if idx > n {
-						n = idx
-					}
-				}
-				typ = types.NewArray(c.toType(at.Elt), n)
+				// an open array: the builder computes the length from the elements (largest index + 1)
+				typ = types.NewArray(c.toType(at.Elt), -1)
 			}
 		}
 		if typ == nil {
